@@ -183,6 +183,21 @@ PROPS = {
         level_text='Thousands of generated files per quick run, every finding and every directive judged by the line model; held on the placements executed.',
         level_note='Trusted: the line model (harness/src/mon/c14.rs::model, written from the statement), the four rules of each language firing exactly once per statement (asserted: the rules must load; unsuppressed findings are compared with multiplicity).',
     ),
+    'C16': dict(
+        engines=[('py', 'c16')],
+        cli=True,
+        technique='runtime monitoring at the process boundary: oracle computed from the file bytes only, applied to every JSON record and every line of the plain-text report',
+        rule=('generated JavaScript projects (0, 1, 2, 5 or 9 matching files, nested directory, a non-source file) whose files contain multi-byte text before and inside matches, CRLF line ends, a '
+              '100 000-character line, matches at offset 0 and at EOF without trailing newline, calls spanning lines; commands: `ast-grep run -p .. -l js --json[=pretty|stream|compact]` with '
+              '-A/-B/-C in {0,1,2,5}, with and without --rewrite, `ast-grep scan -r rule.yml --json=stream` (rule with fix), and `run --color never --heading never [-A/-B n]`. For every record: '
+              'text == bytes[start:end]; start/end line = number of newlines before the offset, column = characters since the line start; the same for every single and multi meta-variable; lines == the whole '
+              'lines [line(start)-B, line(end)+A] clipped to the file; charCount == characters of `lines` before/after the match; replacementOffsets a character-aligned range of the file; stdout parses as one '
+              'JSON array (or one object per line) for any number of files; every path:N:text line of the plain report carries line N of that file. '
+              'evaluations = CLI invocations. Non-trivial = distinct records preceded on their line by a multi-byte character, spanning lines, touching file start/end or carrying context, plus plain reports with >= 1 line.'),
+        floor={'quick': 300, 'thorough': 5000},
+        level_text='Thousands of records per quick run are recomputed from the bytes on disk; held on the files, patterns, styles and context settings executed.',
+        level_note='Trusted: python json and utf-8 decoding, the 60-line oracle in drivers/c16.py. Record ORDER is not judged.',
+    ),
 }
 
 NOT_APPLICABLE = {}
